@@ -8,6 +8,8 @@ from ..report import Report
 from ..contract import block_size
 from .common import public_functions, construct, fsite, handle_type, vtable_instances
 from .c05 import Ctx5, loop_paths
+from ..consume import Consume, lf_atom, lf_terms
+from ..initflow import lf_scale
 from .c13 import output_extent
 from . import c13, c14
 from .c14 import state_term
@@ -154,26 +156,28 @@ def check_parallel(prog, an, rep, cn, name, f0, c, decl):
     am = an.summaries[f.key].fa.am
     want_dir = "forward" if name.endswith("_encrypt") else ("backward" if name.endswith("_decrypt") else None)
     nloops = 0
-    for header, body in sorted(f.loops().items()):
+    M = Consume(f, P, loop_paths)
+    bufk = {pidx[pn]: pn for pn, sp in c["params"].items() if sp[0] == "BUF" and pn in pidx}
+    sizek = pidx.get("size")
+    size_atom = lf_atom(("a", sizek)) if sizek is not None else None
+    ps_off = ps_t[1][1][0] if ps_t is not None else None
+    for header in M.order:
+        info = M.loops[header]
         nloops += 1
-        hphis = [i for i in f.bbmap[header]["insts"] if i["op"] == "phi"]
-        for (path, kind, tgt) in loop_paths(f, header, body):
-            if kind != "latch":
-                continue
-            env = {}
-            calls = []
-            for n, bb in enumerate(path):
-                prev = path[n - 1] if n else None
-                for i in f.bbmap[bb]["insts"]:
-                    if i["op"] == "phi" and prev is not None and bb != header:
-                        for v, pb in zip(i["ops"], i["inblocks"]):
-                            if pb == prev:
-                                env[i["id"]] = v
-                    elif i["op"] == "call" and not (i.get("intrinsic") or "").startswith("llvm."):
-                        calls.append(i)
-            label = "%s:loop@%s" % (cons, header)
+        label = "%s:loop@%s" % (cons, header)
+        t_hdr = f.term(header)
+        if header in M.problems:
+            rep.violation("C07.R1", label, f.loc(t_hdr), "loop-carried cursors move by different amounts per iteration: %s" % M.problems[header], cfg=cn)
+            continue
+        if info["d"] is None or not info["paths"]:
+            rep.inconclusive("C07.R1", label, f.loc(t_hdr), "no loop-carried cursor or index found in this data loop", cfg=cn)
+            continue
+        d = M.canon_lf(info["d"])
+        T = M.total(header)
+        for pth in info["paths"]:
+            calls, env = pth["calls"], pth["env"]
             if len(calls) != 1:
-                rep.inconclusive("C07.R1", label, f.loc(f.term(header)), "%d calls in the loop body (expected one block-processing call)" % len(calls), cfg=cn)
+                rep.inconclusive("C07.R1", label, f.loc(t_hdr), "%d calls in the loop body (expected one block-processing call)" % len(calls), cfg=cn)
                 continue
             call = calls[0]
             # what the callee consumes
@@ -186,106 +190,85 @@ def check_parallel(prog, an, rep, cn, name, f0, c, decl):
                 else:
                     targets = indirect_targets(prog, f, call)
                 exts = {output_extent(prog, an, g) for g in targets}
-                # the loop must step by the object's parallel_size field
-                consumed = None
-                psz_atom = None
-                for ph in hphis:
-                    pass
                 kind_c = "slot" if not (exts and all(e == B for e in exts)) else "scalar"
             else:
                 g = prog.resolve(f.unit, call["callee"][1])
                 targets = [g] if g else []
                 exts = {output_extent(prog, an, g)} if g else set()
                 kind_c = "scalar"
-            # deltas of the loop-carried values
-            deltas = {}
-            for ph in hphis:
-                nv = None
-                for v, pb in zip(ph["ops"], ph["inblocks"]):
-                    if pb == path[-1]:
-                        nv = v
-                if nv is None:
-                    continue
-                if ph["type"].endswith("*"):
-                    p = P.ptr(nv, env)
-                    deltas[ph["id"]] = p[1] if p is not None and p[0] == ("phi", ph["id"]) else None
-                else:
-                    l = P.lf(nv, env)
-                    deltas[ph["id"]] = lf_add((0, ((("i", ph["id"]), 1),)), l, -1) if l is not None else None
-            ptr_phis = [ph for ph in hphis if ph["type"].endswith("*")]
-            int_phis = [ph for ph in hphis if not ph["type"].endswith("*")]
-            ds = [deltas.get(ph["id"]) for ph in hphis]
-            if any(d is None for d in ds) or len(set(ds)) != 1:
-                rep.violation("C07.R1", label, f.loc(call), "loop-carried cursors move by different amounts per iteration: %s" %
-                              {ph.get("name", "?"): (lf_str(deltas[ph["id"]]) if deltas.get(ph["id"]) else "?") for ph in hphis}, cfg=cn)
-                continue
-            d = ds[0]
-            # callee receives the current cursors
-            argbases = []
-            for o in call["ops"]:
-                if o[0] in ("i", "a"):
-                    p = P.ptr(o, env)
-                    if p is not None and p[0][0] == "phi":
-                        argbases.append((p[0][1], p[1]))
-            bad_args = [x for x in argbases if x[1] != lf_const(0)]
-            missing = [ph for ph in ptr_phis if ph["id"] not in [x[0] for x in argbases]]
-            # every data-buffer argument (output / input / tweak) must be a cursor of THIS loop
-            bufk = {pidx[pn] for pn, sp in c["params"].items() if sp[0] == "BUF" and pn in pidx}
-            hset = {ph["id"] for ph in hphis}
-            stuck = []
+            # every data buffer of the public function reaches the call as  parameter + T
+            seen = {}
             for o in call["ops"]:
                 if o[0] not in ("i", "a"):
                     continue
-                a = am.of(o)
-                if a is None or a.root[0] != "arg" or a.root[1] not in bufk or len(a.segs) != 1:
-                    continue
-                p = P.ptr(o, env)
-                if p is None or p[0][0] != "phi" or p[0][1] not in hset:
-                    stuck.append(decl["params"][a.root[1]]["name"])
-            if stuck:
-                rep.violation("C07.R1", label + ":args", f.loc(call), "buffer `%s` is passed to the block-processing call but is not advanced in this loop: every iteration processes the same %s bytes" % (stuck[0], stuck[0]), cfg=cn)
-            elif bad_args or missing:
-                rep.violation("C07.R1", label + ":args", f.loc(call), "the block-processing call does not receive every current cursor at offset 0 (%s)" %
-                              ("cursor `%s` is not passed" % missing[0].get("name", "?") if missing else "offset %s" % lf_str(bad_args[0][1])), cfg=cn)
-            else:
-                rep.ok("C07.R1", label + ":args", f.loc(call), "callee receives the %d current cursors" % len(ptr_phis), cfg=cn)
+                cp = M.canon_ptr(o, env)
+                if cp is not None and cp[0][0] == "a" and cp[0][1] in bufk:
+                    seen[cp[0][1]] = cp[1]
+                elif cp is None:
+                    a = am.of(o)
+                    if a is not None and a.root[0] == "arg" and a.root[1] in bufk and len(a.segs) == 1:
+                        seen.setdefault(a.root[1], None)
+            problem = None
+            for k, pn in sorted(bufk.items()):
+                if k not in seen:
+                    problem = "cursor `%s` is not passed" % pn
+                    break
+                off = seen[k]
+                if off is None:
+                    problem = "the position inside `%s` is not a recognisable function of the bytes consumed" % pn
+                    break
+                if ("C", header) not in lf_terms(off):
+                    rep.violation("C07.R1", label + ":args", f.loc(call), "buffer `%s` is passed to the block-processing call but is not advanced in this loop: every iteration processes the same %s bytes" % (pn, pn), cfg=cn)
+                    problem = ""
+                    break
+                if off != T:
+                    problem = "`%s` is passed at offset %s although %s bytes have been consumed" % (pn, lf_str(off), lf_str(T))
+                    break
+            if problem:
+                rep.violation("C07.R1", label + ":args", f.loc(call), "the block-processing call does not receive every current cursor at offset 0 (%s)" % problem, cfg=cn)
+            elif problem is None:
+                rep.ok("C07.R1", label + ":args", f.loc(call), "callee receives %s, each at parameter + bytes consumed so far (%s)" % (", ".join(bufk[k] for k in sorted(bufk)), lf_str(T)), cfg=cn)
             # amount
             if kind_c == "scalar":
                 if not lf_is_const(d) or exts != {d[0]} or d[0] != B:
                     rep.violation("C07.R1", label, f.loc(call), "scalar tail steps by %s but %s processes %s bytes per call (block size %d)" % (lf_str(d), [t.name for t in targets], sorted(exts), B), cfg=cn)
                 else:
-                    rep.ok("C07.R1", label, f.loc(call), "scalar tail: output, input%s and size all step by %d = bytes processed by %s" % (", tweak" if len(ptr_phis) == 3 else "", B, [t.name for t in targets]), cfg=cn)
-                guard_need = lf_const(B)
+                    rep.ok("C07.R1", label, f.loc(call), "scalar tail: every cursor / index / remaining size steps by %d = bytes processed by %s" % (B, [t.name for t in targets]), cfg=cn)
             else:
-                # d must be the value loaded from ecb->parallel_size
-                okd = False
-                if len(d[1]) == 1 and d[0] == 0 and d[1][0][1] == 1 and d[1][0][0][0] == "i":
-                    ld = f.insts.get(d[1][0][0][1])
-                    if ld is not None and ld["op"] == "load":
-                        a = am.of(ld["ops"][0])
-                        if a is not None and ps_t is not None and a.root == ("arg", hidx) and len(a.segs) == 1 and a.segs[0].off == ps_t[1][1][0]:
-                            okd = True
-                if okd:
-                    rep.ok("C07.R1", label, f.loc(call), "vector loop: all cursors and size step by ecb->parallel_size (= bytes the slot target processes, R2)", cfg=cn)
+                if ps_off is not None and d == lf_atom(("fld", hidx, ps_off)):
+                    rep.ok("C07.R1", label, f.loc(call), "vector loop: every cursor / index / remaining size steps by ecb->parallel_size (= bytes the slot target processes, R2)", cfg=cn)
                 else:
                     rep.violation("C07.R1", label, f.loc(call), "vector loop steps by %s, not by the advertised parallel_size the back end processes per call" % lf_str(d), cfg=cn)
-                guard_need = d
-            # loop guard size >= amount
-            t = f.term(header)
-            gok = False
-            if t["op"] == "br" and t["ops"][0][0] == "i":
-                cnd = f.insts[t["ops"][0][1]]
-                if cnd["op"] == "icmp" and cnd["pred"] in ("uge", "ugt"):
-                    x, y = P.lf(cnd["ops"][0], {}), P.lf(cnd["ops"][1], {})
-                    if int_phis and x == (0, ((("i", int_phis[0]["id"]), 1),)):
-                        if cnd["pred"] == "uge" and y == guard_need:
-                            gok = True
-                        if cnd["pred"] == "ugt" and lf_is_const(y) and lf_is_const(guard_need) and y[0] + 1 == guard_need[0]:
-                            gok = True
+            # guard: some test between the header and the call implies  size - T >= d
+            gok = None
+            for (tb, truth) in pth["conds"]:
+                if tb["ops"][0][0] != "i":
+                    continue
+                cnd = f.insts[tb["ops"][0][1]]
+                if cnd["op"] != "icmp":
+                    continue
+                pred = cnd["pred"] if truth else {"uge": "ult", "ugt": "ule", "ult": "uge", "ule": "ugt", "eq": "ne", "ne": "eq"}.get(cnd["pred"])
+                x, y = M.canon_lf(P.lf(cnd["ops"][0], env)), M.canon_lf(P.lf(cnd["ops"][1], env))
+                if x is None or y is None or size_atom is None:
+                    continue
+                if pred in ("ult", "ule"):
+                    x, y, pred = y, x, {"ult": "ugt", "ule": "uge"}[pred]
+                rem = lf_add(size_atom, T, -1)              # size - T
+                df = lf_add(x, y, -1)
+                if pred == "uge" and df == lf_add(rem, d, -1):
+                    gok = "size - consumed >= %s" % lf_str(d)
+                elif pred == "ugt" and lf_is_const(d) and df == lf_add(rem, lf_const(d[0] - 1), -1):
+                    gok = "size - consumed > %d" % (d[0] - 1)
+                elif pred in ("ugt", "ne") and lf_is_const(d) and d[0] == B and kind_c == "scalar" and (df == rem or (pred == "ne" and lf_scale(df, -1) == rem)):
+                    # consumed < size: at least one whole block remains because size (R5) and every amount
+                    # consumed (B, or parallel_size = whole blocks by R2/R3) are multiples of the block size
+                    gok = "consumed < size, all multiples of the block size (R5, R2)"
+                if gok:
+                    break
             if gok:
-                rep.ok("C07.R1", label + ":guard", f.loc(t), "loop runs while size >= %s" % lf_str(guard_need), cfg=cn)
+                rep.ok("C07.R1", label + ":guard", f.loc(t_hdr), "each call is guarded by %s" % gok, cfg=cn)
             else:
-                rep.violation("C07.R1", label + ":guard", f.loc(t), "loop guard does not ensure size >= %s bytes remain before a call that consumes them" % lf_str(guard_need), cfg=cn)
+                rep.violation("C07.R1", label + ":guard", f.loc(t_hdr), "loop guard does not ensure size >= %s bytes remain before a call that consumes them" % lf_str(d), cfg=cn)
             # R4 direction
             if want_dir:
                 for g in targets:
